@@ -21,6 +21,7 @@ import (
 // FStep is one reconciliation with the faults armed during its update.
 type FStep struct {
 	cfgsm.Step
+	Restart     bool     `json:"restart,omitempty"`      // the controller restarts first: new Instance over the same directories, full sync
 	Faults      []string `json:"faults,omitempty"`       // file classes, "reload-request", "reload-result"
 	QueueFaults int      `json:"queue_faults,omitempty"` // queue mode: number of failing reloads before the queue's reload succeeds
 }
@@ -78,6 +79,12 @@ func gen(rng *rand.Rand, wide bool) History {
 	cls := classes(shards, h.Inline)
 	for i, st := range steps {
 		fs := FStep{Step: st}
+		if i > 0 && rng.Intn(12) == 0 {
+			// crash / restart of the controller: the next reconciliation is a full sync of a new instance
+			fs.Restart = true
+			fs.Full = true
+			fs.Dirty = nil
+		}
 		if i > 0 && rng.Intn(3) == 0 {
 			// arm one fault (sometimes two); prefer the classes this update is likely to reach
 			n := 1 + rng.Intn(5)/4
@@ -139,6 +146,16 @@ func corpus() []History {
 		out = append(out, History{Shards: 0, Inline: inline, Steps: []FStep{
 			fst(true, h01, b01, nil), fst(false, nil, nil, nil, "main"), fst(false, nil, nil, nil)}})
 	}
+	// crash points: the controller restarts (after a failed update or not) over the same directories
+	for _, inline := range []bool{true, false} {
+		r := fst(true, h01, b01, nil)
+		r.Restart = true
+		out = append(out, History{Shards: 3, Inline: inline, Steps: []FStep{fst(true, h0, b0, nil), fst(false, h01, b01, nil, "main"), r}})
+		// ... and a shard lost all its backends meanwhile: its file is never rewritten
+		r0 := fst(true, h0, b0, nil)
+		r0.Restart = true
+		out = append(out, History{Shards: 8, Inline: inline, Steps: []FStep{fst(true, h01, b01, nil), r0}})
+	}
 	// reload through the queue fails twice, the queue retries
 	q := fst(false, h01, b01, nil)
 	q.QueueFaults = 2
@@ -181,8 +198,19 @@ func runHistory(base string, h History) runResult {
 		}
 	}
 	pendingFault := "" // first fault of a failed update not yet followed by a successful one
+	restarted := false
 	for i, st := range h.Steps {
 		st.State.Normalize(false)
+		if st.Restart {
+			st.Full = true
+			st.Dirty = nil
+			in := e.Interner
+			e = cfgsm.NewEnv(base, "enva", cfgsm.Options{Shards: h.Shards, InlineReload: h.Inline, MasterSocket: sock, Keep: true})
+			e.Interner = in
+			env := e
+			master.OnReload = func() { running = env.ReadDisk().Canon() }
+			restarted = true
+		}
 		h.Steps[i] = st
 		ops := e.Sync(st.Step)
 		var fileClasses []string
@@ -261,6 +289,9 @@ func runHistory(base string, h History) runResult {
 		if pendingFault != "" {
 			key = faultKey(pendingFault)
 		}
+		if restarted && staleShardBackend(o.Disk, st.State) {
+			key = "restart-keeps-stale-shard-files"
+		}
 		if o.Disk.Canon() != fresh {
 			fail(key, where+": after the failed update(s) [first fault "+pendingFault+"] this update succeeded but the files differ from those of a fresh instance: "+firstDiff(o.Disk.Canon(), fresh))
 		} else if running != fresh {
@@ -272,6 +303,18 @@ func runHistory(base string, h History) runResult {
 		pendingFault = ""
 	}
 	return r
+}
+
+// staleShardBackend tells whether a shard file still holds a backend that is not in the current state.
+func staleShardBackend(d cfgsm.Disk, cur S) bool {
+	for _, f := range d.Files {
+		for _, b := range f.Backends {
+			if _, ok := cur.Backends[b.Name]; !ok && f.Shard >= 0 {
+				return true
+			}
+		}
+	}
+	return false
 }
 
 func phaseText(f string) string {
